@@ -51,10 +51,10 @@ def run_cases(ctx, n, rational_share=0.7, with_sources=True):
         except Exception as e:  # the implementation failed on an in-domain program
             cases.append({"steps": steps, "corr": corr, "error": "{}: {}".format(type(e).__name__, e)})
             continue
-        cases.append({"steps": steps, "corr": corr, "model": w.model, "obs": observations})
+        cases.append({"steps": steps, "corr": corr, "model": list(w.model), "obs": observations})
         # second phase: change a central value, recalculate every result, observe again (the results must be
         # those of the formula at the NEW central values: intermediate results may not keep anything back)
-        ch = CL.pick_change(w.model, rng, corr) if rng.random() < 0.6 else None
+        ch = CL.pick_change(w.model, rng, corr, visible=w.derived_ids()) if rng.random() < 0.6 else None
         if ch:
             try:
                 CL.apply_change_impl(w, ch)
@@ -133,7 +133,7 @@ def oracle_program(steps, corr, change=None):
         w = CL.execute(steps, corr)
     except Exception as e:
         return "the implementation raised {}: {}".format(type(e).__name__, str(e)[:100])
-    model = w.model
+    model = list(w.model)
     for phase in (1, 2):
         for k in (w.derived_ids() if phase == 1 else reversed(w.derived_ids())):
             try:
@@ -143,7 +143,7 @@ def oracle_program(steps, corr, change=None):
             why = CL.oracle_object(model, corr, obs)
             if why:
                 return "{}object {} ({}): {}".format(
-                    "" if phase == 1 else "after {} of measurement {} := {} and recalculate(): ".format(*CL.norm_change(change)),
+                    "" if phase == 1 else "after {} of object {} := {} and recalculate(): ".format(*CL.norm_change(change)[:3]),
                     k, model[k], why)
         if not change or phase == 2:
             break
@@ -218,7 +218,7 @@ def change_for(steps, corr, rng):
         w = CL.execute(steps, corr)
     except Exception:
         return None
-    return CL.pick_change(w.model, rng, corr)
+    return CL.pick_change(w.model, rng, corr, visible=w.derived_ids())
 
 
 def replay(ctx, v):
